@@ -39,7 +39,7 @@ func ruleC08(c *Ctx) {
 	c.Undec = []string{"data races under concurrency beyond 'tables of different ids share no memory and no other package state is written'", "behaviour of callers that hold a Table across calls"}
 	c.Trusted = []string{"strings.Builder, strings.ToUpper", "no pointer analysis: origin abstraction (fresh/param/global) over the type closure of Table"}
 	c.floor("ALIAS", 1)
-	c.floor("WRITERS", 2)
+	c.floor("WRITERS", 4)
 	c.floor("TERM-COUNT", 4)
 	c.floor("SHAPE", 1)
 	w := c.W
@@ -181,6 +181,14 @@ func ruleC08(c *Ctx) {
 	}
 	sort.Strings(extra)
 	c.check(len(extra) == 0, "WRITERS", "only OptimizeTable writes Codon.Weight in place", sp.Func("GetCodonTable").Pos(), fmt.Sprintf("in-place writers of Table memory: %v", allWriters), "unexpected in-place writer(s) of Table/AminoAcid/Codon memory: "+strings.Join(extra, "; "))
+	// the combining functions leave their operands alone (a default table handed in must stay pristine)
+	for _, name := range []string{"AddCodonTable", "CompromiseCodonTable"} {
+		if f := w.fn("transform/codon", name); f != nil {
+			c.useFn(f)
+			ws := apiArgWrites(f)
+			c.check(len(ws) == 0, "WRITERS", name+" does not write its operands", f.Pos(), "no store or in-place append reaches memory reachable from a parameter", strings.Join(ws, "; ")+": combining a default table with another one changes the default table for every later request")
+		}
+	}
 	// package-level table map
 	dt := readDefaultTables(c)
 	if dt != nil {
